@@ -125,31 +125,54 @@ Proof.
 Qed.
 
 (* st' extends st: normal output grew by Y, related to X; low output and mode untouched *)
+(* (the last part: the token list of the normal output - separators and comments included - only ever grows at its end;
+   `segment_since` cuts the prelude of an at-rule out of it) *)
 Definition Ext (o : opts) (X : list tok) (st st' : wstate) : Prop :=
   w_using_low st' = false /\ w_low st' = w_low st /\
-  exists Y, sout st' = sout st ++ Y /\ Forall2 (tok_rel o) X Y.
+  (exists Y, sout st' = sout st ++ Y /\ Forall2 (tok_rel o) X Y) /\
+  (exists T, o_tokens (w_normal st') = o_tokens (w_normal st) ++ T).
 
 Lemma Ext_refl : forall o st, w_using_low st = false -> Ext o [] st st.
-Proof. intros o st H. unfold Ext. repeat split; [exact H|]. exists []. rewrite app_nil_r. split; [reflexivity | constructor]. Qed.
+Proof.
+  intros o st H. unfold Ext. repeat split; [exact H| |exists []; rewrite app_nil_r; reflexivity].
+  exists []. rewrite app_nil_r. split; [reflexivity | constructor].
+Qed.
 
 Lemma Ext_trans : forall o X X' a b c, Ext o X a b -> Ext o X' b c -> Ext o (X ++ X') a c.
 Proof.
-  intros o X X' a b c [A1 [A2 [Y [A3 A4]]]] [B1 [B2 [Y' [B3 B4]]]]. unfold Ext.
-  repeat split; [exact B1 | rewrite B2; exact A2 |].
+  intros o X X' a b c [A1 [A2 [[Y [A3 A4]] [T A5]]]] [B1 [B2 [[Y' [B3 B4]] [T' B5]]]]. unfold Ext.
+  repeat split; [exact B1 | rewrite B2; exact A2 | |exists (T ++ T'); rewrite B5, A5, app_assoc; reflexivity].
   exists (Y ++ Y'). split; [rewrite B3, A3, app_assoc; reflexivity | apply Forall2_app; assumption].
 Qed.
+
+Lemma Ext_grow : forall o X a b, Ext o X a b -> exists T, o_tokens (w_normal b) = o_tokens (w_normal a) ++ T.
+Proof. intros o X a b H. apply H. Qed.
+Lemma Ext_low : forall o X a b, Ext o X a b -> w_low b = w_low a.
+Proof. intros o X a b H. apply H. Qed.
 
 Lemma Ext_using_low : forall o X a b, Ext o X a b -> w_using_low b = false.
 Proof. intros o X a b H. apply H. Qed.
 
+Lemma o_tokens_append_token_sp : forall st t p src,
+  exists T, o_tokens (append_token_sp st t p src) = o_tokens st ++ T.
+Proof.
+  intros st t p src. destruct (is_ws t) eqn:W.
+  - destruct (is_ws_inv _ W) as [s ->]. destruct st as [ch u pv en tk]. unfold append_token_sp, o_tokens. cbn [o_toks rev].
+    eexists. reflexivity.
+  - rewrite append_token_sp_not_ws by exact W. rewrite o_tokens_append_token. eexists. reflexivity.
+Qed.
+
 Lemma emit_facts : forall st t p src (op_ : op),
   w_using_low st = false -> (op_ = OpTok t p src \/ op_ = OpTokSP t p src) ->
   w_using_low (emit st op_) = false /\ w_low (emit st op_) = w_low st /\
-  sout (emit st op_) = sout st ++ strip [t].
+  sout (emit st op_) = sout st ++ strip [t] /\
+  exists T, o_tokens (w_normal (emit st op_)) = o_tokens (w_normal st) ++ T.
 Proof.
   intros st t p src op_ H Hop. unfold emit. rewrite H. cbn [w_using_low w_low w_normal].
   split; [reflexivity|]. split; [reflexivity|]. unfold sout. cbn [w_normal].
-  destruct Hop as [-> | ->]; cbn [apply_op]; [apply strip_append_token | apply strip_append_token_sp].
+  destruct Hop as [-> | ->]; cbn [apply_op]; (split; [first [apply strip_append_token | apply strip_append_token_sp]|]).
+  - rewrite o_tokens_append_token. eexists. reflexivity.
+  - apply o_tokens_append_token_sp.
 Qed.
 
 Lemma Ext_emit_gen : forall o st t' p src X (sp_mode : bool),
@@ -158,10 +181,10 @@ Lemma Ext_emit_gen : forall o st t' p src X (sp_mode : bool),
 Proof.
   intros o st t' p src X m H HX. unfold Ext, tok_sp, tok_at.
   destruct m.
-  - destruct (emit_facts st t' p src (OpTokSP t' p src) H (or_intror eq_refl)) as [A [B C]].
-    split; [exact A|]. split; [exact B|]. exists (strip [t']). split; [exact C | exact HX].
-  - destruct (emit_facts st t' p src (OpTok t' p src) H (or_introl eq_refl)) as [A [B C]].
-    split; [exact A|]. split; [exact B|]. exists (strip [t']). split; [exact C | exact HX].
+  - destruct (emit_facts st t' p src (OpTokSP t' p src) H (or_intror eq_refl)) as [A [B [C G]]].
+    split; [exact A|]. split; [exact B|]. split; [|exact G]. exists (strip [t']). split; [exact C | exact HX].
+  - destruct (emit_facts st t' p src (OpTok t' p src) H (or_introl eq_refl)) as [A [B [C G]]].
+    split; [exact A|]. split; [exact B|]. split; [|exact G]. exists (strip [t']). split; [exact C | exact HX].
 Qed.
 
 Lemma Ext_tok_at : forall o st t p src, w_using_low st = false -> Ext o (strip [t]) st (tok_at st t p src).
@@ -584,7 +607,7 @@ Theorem tokens_preserved : forall o tree endp,
 Proof.
   intros o tree endp Hsh Hi Hh. unfold transform.
   destruct (Ext_rules (S (nodes_size tree)) o tree endp true w_init Hsh Hi Hh (Nat.lt_succ_diag_r _) eq_refl)
-    as [_ [L [Y [E F]]]].
+    as [_ [L [[Y [E F]] _]]].
   split; [|exact L]. unfold sout in E. change (strip (o_tokens (w_normal w_init))) with (@nil tok) in E.
   cbn [app] in E. rewrite E. exact F.
 Qed.
